@@ -133,6 +133,14 @@ func zzNewCtx() *zzCtx {
 		names = append(names, Name{Ident: vn.StrOf(idx, zzIds...), Type: n.T})
 	}
 	c.gamma = produceNameTypesCtx(names)
+	// an entry is either a declared parameter / free name (its Name field is filled, as
+	// produceNameTypesCtx does) or was added by an enclosing binder (only the type is recorded)
+	for i := range names {
+		byBinder := vn.Bool()
+		nt := c.gamma[names[i].Ident]
+		nt.Name.Ident = vn.IteS(byBinder, "", names[i].Ident)
+		c.gamma[names[i].Ident] = nt
+	}
 	c.hasShadow = vn.Pick(2) == 1
 	if c.hasShadow {
 		c.shadowIdx = vn.Int(0, len(zzIds)-1)
@@ -275,7 +283,7 @@ func (c *zzCtx) fresh(b zzN, consumed []zzN, others ...zzN) bool {
 	for _, idx := range c.gIdx {
 		gone := false
 		for _, u := range consumed {
-			gone = vn.Or(gone, u.idx == idx)
+			gone = vn.Or(gone, vn.And(vn.Not(u.self), u.idx == idx))
 		}
 		r = vn.And(r, vn.Or(gone, b.idx != idx))
 	}
@@ -289,3 +297,5 @@ func (c *zzCtx) fresh(b zzN, consumed []zzN, others ...zzN) bool {
 }
 
 func (c *zzCtx) pos() position.Position { return position.Position{} }
+
+func zzPos() position.Position { return position.Position{} }
